@@ -55,6 +55,8 @@ pub struct Arena {
     /// If true, symbolic `==` does not consult shadows but always answers `true`
     /// (recording the decision) — "assume every check passes".
     pub assume_equal: bool,
+    /// Shadow overrides by variable id (tamper sweeps: same symbols, altered concrete value).
+    pub shadow_override: HashMap<u32, u64>,
 }
 
 impl Arena {
@@ -73,6 +75,7 @@ impl Arena {
             forced: HashMap::new(),
             n_decisions: 0,
             assume_equal: false,
+            shadow_override: HashMap::new(),
         }
     }
     pub fn mk(&mut self, n: Node, shadow: u64) -> u32 {
@@ -88,6 +91,7 @@ impl Arena {
     pub fn new_var(&mut self, name: String, shadow: u64) -> u32 {
         let id = self.var_names.len() as u32;
         self.var_names.push(name);
+        let shadow = self.shadow_override.get(&id).copied().unwrap_or(shadow);
         let n = self.mk(Node::Var(id), shadow % self.p);
         self.var_nodes.push(n);
         n
@@ -297,4 +301,84 @@ pub fn expansion_size(roots: &[H], cap: u64) -> u64 {
         }
         total.min(cap)
     })
+}
+
+/// Variables (and uninterpreted applications, as opaque atoms) occurring below `roots`.
+pub fn atoms_of(roots: &[H], cap: usize) -> std::collections::HashSet<u32> {
+    let mut seen = std::collections::HashSet::new();
+    let mut out = std::collections::HashSet::new();
+    let mut stack: Vec<u32> = roots.iter().filter_map(|h| if let H::N(i) = h { Some(*i) } else { None }).collect();
+    with_arena(|a| {
+        while let Some(i) = stack.pop() {
+            if !seen.insert(i) || seen.len() > cap {
+                continue;
+            }
+            match &a.nodes[i as usize] {
+                Node::Var(_) => {
+                    out.insert(i);
+                }
+                Node::Uf { .. } => {
+                    out.insert(i);
+                }
+                Node::Add(x, y) | Node::Sub(x, y) | Node::Mul(x, y) => {
+                    for h in [x, y] {
+                        if let H::N(j) = h {
+                            stack.push(*j);
+                        }
+                    }
+                }
+                Node::Neg(x) | Node::Inv(x) => {
+                    if let H::N(j) = x {
+                        stack.push(*j);
+                    }
+                }
+            }
+        }
+    });
+    out
+}
+
+pub fn set_shadow_override(var: u32, value: u64) {
+    with_arena(|a| {
+        a.shadow_override.insert(var, value);
+    });
+}
+
+/// All variable ids occurring below `roots` (descends through uninterpreted applications).
+pub fn vars_of(roots: &[H]) -> std::collections::BTreeSet<u32> {
+    let mut seen = std::collections::HashSet::new();
+    let mut out = std::collections::BTreeSet::new();
+    let mut stack: Vec<u32> = roots.iter().filter_map(|h| if let H::N(i) = h { Some(*i) } else { None }).collect();
+    with_arena(|a| {
+        while let Some(i) = stack.pop() {
+            if !seen.insert(i) {
+                continue;
+            }
+            match &a.nodes[i as usize] {
+                Node::Var(v) => {
+                    out.insert(*v);
+                }
+                Node::Uf { args, .. } => {
+                    for h in args.iter() {
+                        if let H::N(j) = h {
+                            stack.push(*j);
+                        }
+                    }
+                }
+                Node::Add(x, y) | Node::Sub(x, y) | Node::Mul(x, y) => {
+                    for h in [x, y] {
+                        if let H::N(j) = h {
+                            stack.push(*j);
+                        }
+                    }
+                }
+                Node::Neg(x) | Node::Inv(x) => {
+                    if let H::N(j) = x {
+                        stack.push(*j);
+                    }
+                }
+            }
+        }
+    });
+    out
 }
